@@ -1,6 +1,7 @@
 package hotspot
 
 import (
+	"github.com/alibaba/sentinel-golang/core/hotspot/cache"
 	rt "github.com/alibaba/sentinel-golang/zzverif/verifrt"
 )
 
@@ -56,4 +57,65 @@ func VerifC15() {
 		rt.Reach("c15.op")
 		rt.Assert(rt.LockFree(tcMux) && rt.LockFree(updateRuleMux), "every exported function releases the locks it took")
 	}
+}
+
+// VerifC15Cache: the per-rule parameter caches (LRU list, index map) are only modified with the
+// cache's lock held exclusively, whatever the request path (first sight of a value, a known value that
+// is not the most recent one, exit, eviction).
+func VerifC15Cache() {
+	rt.SetClockMs(2000000000000)
+	mt := []MetricType{Concurrency, QPS}[rt.Choice(2)]
+	LoadRules([]*Rule{{Resource: "A", MetricType: mt, ControlBehavior: Reject, ParamIndex: 0, Threshold: 100, DurationInSec: 1, ParamsMaxCapacity: 2}})
+	tcs := getTrafficControllersFor("A")
+	if len(tcs) != 1 {
+		rt.Assert(false, "one controller")
+		return
+	}
+	m := tcs[0].BoundMetric()
+	for _, c := range []interface{}{m.ConcurrencyCounter, m.RuleTimeCounter, m.RuleTokenCounter} {
+		if c == nil {
+			continue
+		}
+		rt.GuardField(c, "lru.evictList", c, "lock", "a hotspot parameter cache (eviction list)")
+		rt.GuardField(c, "lru.items", c, "lock", "a hotspot parameter cache (index map)")
+		rt.GuardField(c, "lru", c, "lock", "a hotspot parameter cache (LRU structure)")
+	}
+	for step := 0; step < 4; step++ {
+		v := rt.Choice(3) // three values on a cache of capacity 2
+		ctx := verifHotCtx("A", []interface{}{v}, nil, 1)
+		if r := DefaultSlot.Check(ctx); r == nil || !r.IsBlocked() {
+			DefaultConcurrencyStatSlot.OnEntryPassed(ctx)
+			if rt.Bool("exit") {
+				DefaultConcurrencyStatSlot.OnCompleted(ctx)
+			}
+		}
+		rt.Reach("c15.cache-op")
+	}
+}
+
+// VerifC15CacheRace: two or three goroutines see a value for the first time at once: exactly one of
+// them installs the counter, the others get that same counter (context switches at every lock operation).
+func VerifC15CacheRace() {
+	n := rt.Param("N")
+	c := cache.NewLRUCacheMap(4)
+	mine := make([]*int64, n)
+	prior := make([]*int64, n)
+	for i := 0; i < n; i++ {
+		i := i
+		mine[i] = new(int64)
+		rt.Spawn(func() { prior[i] = c.AddIfAbsent("k", mine[i]) })
+	}
+	rt.Join()
+	rt.Reach("c15.cache-race")
+	cur, _ := c.Get("k")
+	winners := 0
+	for i := 0; i < n; i++ {
+		if prior[i] == nil {
+			winners++
+			rt.Assert(cur == mine[i], "the counter that was installed is the one the cache reports")
+		} else {
+			rt.Assert(prior[i] == cur, "a caller that did not install the counter gets the installed one")
+		}
+	}
+	rt.Assert(winners == 1, "exactly one of the concurrent first callers installs the counter")
 }
